@@ -55,6 +55,16 @@ Theorem accepted_started_after_deps q s : Reach q -> InS s -> started (st q s) =
   (has_up (gB g) (hi_ g) s = true -> isdone (st q (s - gB g)) = true).
 Proof. apply (started_after_deps (gR g) (gB g) (lo_ g) (hi_ g) HB HR Hrows Hup Hhi). Qed.
 
+(* transitively: when a segment has started, every segment of an earlier-or-equal row whose band is not to the right of it
+   has finished its walk (what seg_walk_dependency_order's "earlier segment" needs) *)
+Theorem accepted_started_after_all_earlier q s t : Reach q -> InS s -> started (st q s) = true -> InS t ->
+  t <> s -> t / gB g <= s / gB g -> t - (t / gB g) * gB g <= s - (s / gB g) * gB g -> finished (st q t) = true.
+Proof.
+  intros Hq Hs Hst Ht Hne Hrow Hband.
+  apply (started_after_all_earlier (gR g) (gB g) (lo_ g) (hi_ g) HB HR Hrows Hup Hhi q Hq (row (gB g) s) s eq_refl Hs Hst t Ht Hne); unfold row; [exact Hrow|].
+  pose proof (Nat.mul_div_le t (gB g) ltac:(pose proof HB; lia)). pose proof (Nat.mul_div_le s (gB g) ltac:(pose proof HB; lia)). lia.
+Qed.
+
 Theorem accepted_quiescent_all_done q : Reach q -> pend q = [] ->
   (forall s, st q s = NotStarted \/ st q s = Done) -> forall s, InS s -> st q s = Done.
 Proof. apply (quiescent_all_done (gR g) (gB g) (lo_ g) (hi_ g) HB HR Hrows Hup Hhi). Qed.
